@@ -102,6 +102,7 @@ fn gh_defaults(key: &[u8], chunks: &[Vec<u8>]) -> Option<String> {
 
 pub fn dispatch(op: &str, a: &[&str]) -> Option<Ans> {
     let b: Vec<Vec<u8>> = match op {
+        "generichash_emptykey" => a[1..].iter().map(|s| unhex_lenient(s)).collect(),
         "generichash" | "generichash_inc" | "generichash_obj" => a[1..].iter().map(|s| unhex_lenient(s)).collect(),
         _ => a.iter().map(|s| unhex_lenient(s)).collect(),
     };
@@ -248,6 +249,16 @@ pub fn dispatch(op: &str, a: &[&str]) -> Option<Ans> {
             let key = &b[0];
             let mut out = vec![0xA5u8; outlen];
             let r = crypto_generichash(&mut out, &b[1], if key.is_empty() { None } else { Some(key) });
+            // the same hash into a destination at an odd address inside a larger buffer
+            {
+                let off = 1 + (b[1].len() + outlen) % 7;
+                let mut big = vec![0xA5u8; outlen + 16];
+                let o = off + (8 - (big.as_ptr() as usize) % 8) % 8;
+                let r2 = crypto_generichash(&mut big[o..o + outlen], &b[1], if key.is_empty() { None } else { Some(key) });
+                if r2.is_ok() != r.is_ok() || (r.is_ok() && big[o..o + outlen] != out[..]) || big[..o].iter().any(|x| *x != 0xA5) || big[o + outlen..].iter().any(|x| *x != 0xA5) {
+                    return Some((format!("mismatch hash into a destination at address ≡ {} (mod 8): {}", off, hex(&big[o..o + outlen])), "n/a".into()));
+                }
+            }
             let s = if outlen >= 16 && outlen <= 64 && (key.is_empty() || (key.len() >= 16 && key.len() <= 64)) { so_generichash(outlen, key, &b[1]) } else { "err".into() }; // libsodium's documented ranges (BYTES_MIN/KEYBYTES_MIN); the C function itself is laxer
             (if r.is_ok() { ok(&out) } else { "err".into() }, s)
         }
@@ -266,6 +277,43 @@ pub fn dispatch(op: &str, a: &[&str]) -> Option<Ans> {
             })();
             let s = if outlen >= 16 && outlen <= 64 && (key.is_empty() || (key.len() >= 16 && key.len() <= 64)) { so_generichash(outlen, key, &all) } else { "err".into() };
             (match r { Ok(v) => ok(&v), Err(_) => "err".into() }, s)
+        }
+        // generichash_emptykey <outlen> <chunk>…: a key that is PRESENT but empty (`Some(&[])`, an empty Vec) through every form.
+        // All forms must give one answer (the model: the key-length check refuses it everywhere).
+        "generichash_emptykey" => {
+            let outlen: usize = a[0].parse().unwrap();
+            let all: Vec<u8> = b[0..].concat();
+            let empty: &[u8] = &[];
+            let mut out = vec![0xA5u8; outlen];
+            let one = crypto_generichash(&mut out, &all, Some(empty)).map(|_| out.clone());
+            let inc = (|| -> Result<Vec<u8>, dryoc::Error> {
+                let mut st = crypto_generichash_init(Some(empty), outlen)?;
+                for c in &b[0..] {
+                    crypto_generichash_update(&mut st, c);
+                }
+                let mut out = vec![0xA5u8; outlen];
+                crypto_generichash_final(st, &mut out)?;
+                Ok(out)
+            })();
+            let mut forms: Vec<(&str, Result<Vec<u8>, dryoc::Error>)> = vec![("one-shot", one), ("incremental", inc)];
+            if outlen == 32 {
+                use dryoc::generichash::GenericHash;
+                let ev: Vec<u8> = Vec::new();
+                forms.push(("object one-shot", GenericHash::<32, 32>::hash_to_vec(&all, Some(&ev))));
+                forms.push(("object incremental", (|| { let mut h = GenericHash::<32, 32>::new(Some(&ev))?; for c in &b[0..] { h.update(c); } h.finalize_to_vec() })()));
+                forms.push(("object defaults one-shot", GenericHash::hash_with_defaults_to_vec(&all, Some(&ev))));
+                forms.push(("object defaults incremental", (|| { let mut h = GenericHash::new_with_defaults(Some(&ev))?; for c in &b[0..] { h.update(c); } h.finalize_to_vec() })()));
+            }
+            let render = |r: &Result<Vec<u8>, dryoc::Error>| match r { Ok(v) => ok(v), Err(_) => "err".to_string() };
+            let first = render(&forms[0].1);
+            let mut ans = first.clone();
+            for (name, r) in forms.iter() {
+                if render(r) != first {
+                    ans = format!("mismatch empty key: one-shot {} but {} {}", first, name, render(r));
+                    break;
+                }
+            }
+            (ans, na())
         }
         // object API, a few (key length, out length) instantiations
         "generichash_obj" => {
